@@ -247,9 +247,10 @@ class MibCompiler(object):
 
                         parsedMibs[mibInfo.name] = fileInfo, mibInfo, mibTree
 
-                        if mibname in failedMibs:
-                            del failedMibs[mibname]
-                            processed.pop(mibname, None)
+                        for foundName in (mibname, mibInfo.name):
+                            if foundName in failedMibs:
+                                del failedMibs[foundName]
+                                processed.pop(foundName, None)
 
                         mibsToParse.extend(mibInfo.imported)
 
